@@ -171,6 +171,8 @@ def hostile(S):
         gb.cfg("lsn", dict(orthogonal=True, psinorm_core=1.05), label="hostile:core boundary outside the separatrix", **P),
         gb.cfg("cdn", dict(orthogonal=True, nx_inter_sep=3), label="hostile:nx_inter_sep on a connected double null", **P),
         gb.cfg("lsn", dict(orthogonal=True, finecontour_Nfine=8), label="hostile:finecontour_Nfine=8", **P),
+        gb.cfg("cdn", dict(orthogonal=True, ny_inner_upper_divertor=2, ny_outer_upper_divertor=6, ny_inner_lower_divertor=5, ny_outer_lower_divertor=3, y_boundary_guards=1, refine_timeout=20.0), label="hostile:connected double null with four different leg sizes (refinement of a short leg does not converge)", **P),
+        gb.cfg("cdn", dict(orthogonal=True, psi_interpolation_method="dct"), label="hostile:dct interpolant whose X-point flux differs from the spline's", **P),
         gb.cfg("lsn", dict(orthogonal=True, target_all_poloidal_spacing_length=1.0e-4), label="hostile:tiny target spacing", **P),
     ]
     if S.tier == "quick":
